@@ -187,6 +187,13 @@ class Check:
                               '-out', os.path.join(COQ, 'theories', 'Gen')], timeout=1200)
         if out.strip():
             self.log(out.strip()[-1500:])
+        if rc == 3:
+            # some Gen/<X>.v could not be translated: srcgen wrote a stub that does not compile for exactly those
+            # files, so the obligations IMPORTING them break at `make` below (with the translator's message in the
+            # log); a check whose Coq closure does not depend on them is not about that code and goes on unaffected
+            self.log('srcgen: untranslatable target(s); stub(s) written: ' + out.strip()[-600:])
+            self.translation_note = out.strip()[-400:]
+            return True
         if rc != 0:
             self.broken.append('translator: srcgen could not translate the current source: ' + out.strip()[-400:])
             return False
@@ -208,7 +215,8 @@ class Check:
             self.log('Coq build FAILED:\n' + tail)
             m = re.findall(r'File "([^"]+)", line (\d+)', out)
             where = ('%s:%s' % m[-1]) if m else 'unknown'
-            self.broken.append('proof obligation no longer checks: make %s failed at %s' % (' '.join(targets), where))
+            note = getattr(self, 'translation_note', '')
+            self.broken.append('proof obligation no longer checks: make %s failed at %s' % (' '.join(targets), where) + (' (translator: ' + note + ')' if note and 'Gen/' in where else ''))
             self.coq_fail_tail = tail
             return False
         return True
